@@ -108,6 +108,9 @@ func needSpace(a, b tok) bool {
 			}
 		}
 	}
+	if strings.HasSuffix(a.text, "-") && strings.HasPrefix(b.text, "-") {
+		return true // `- -1.5`: two minus signs glued together start a flag
+	}
 	// a sign glued to a preceding operator or a number glued to '.' are not generated
 	if a.kind == tWord && b.kind == tPunct && b.text == "." {
 		return true
